@@ -609,14 +609,7 @@ func (h *handler1) handleConnect(ctx context.Context, snConnect *snPkts1.Connect
 		if err := h.snSend(snPkts1.NewConnack(snPkts1.RC_ACCEPTED)); err != nil {
 			return err
 		}
-		// Deliver the packets queued while the client was asleep.
-		for _, pkt := range h.pktBuffer {
-			if err := h.snSend(pkt); err != nil {
-				return err
-			}
-		}
-		h.pktBuffer = nil
-		return nil
+		return h.flushPktBuffer()
 	}
 
 	// Cancel previous transaction, if any.
@@ -890,12 +883,9 @@ func (h *handler1) handleMqttSn(ctx context.Context, pkt snPkts.Packet) error {
 		if h.state.Get() == util.StateAsleep {
 			// Must be set before snSend otherwise the packets will be queued...
 			h.setState(util.StateAwake)
-			for _, m2 := range h.pktBuffer {
-				if err := h.snSend(m2); err != nil {
-					return err
-				}
+			if err := h.flushPktBuffer(); err != nil {
+				return err
 			}
-			h.pktBuffer = nil
 			err := h.snSend(snPkts1.NewPingresp())
 			// The client goes back to sleep after PINGRESP (for another
 			// sleep duration).
@@ -1040,6 +1030,24 @@ func (h *handler1) startSleepPinger(ctx context.Context) context.CancelFunc {
 		}
 	})
 	return cancel
+}
+
+// flushPktBuffer delivers the packets queued while the client was asleep.
+// The state must not be asleep anymore, otherwise the packets would be queued again.
+func (h *handler1) flushPktBuffer() error {
+	for _, pkt := range h.pktBuffer {
+		if err := h.snSend(pkt); err != nil {
+			return err
+		}
+		if pkt2, ok := pkt.(snPkts1.PacketWithID); ok {
+			transactionx, _ := h.brokerTxStore.Get(pkt2.MessageID())
+			if transaction, ok := transactionx.(brokerPublishTransaction); ok {
+				transaction.Flushed(pkt)
+			}
+		}
+	}
+	h.pktBuffer = nil
+	return nil
 }
 
 func (h *handler1) snSend(pkt snPkts.Packet) error {
